@@ -211,3 +211,26 @@ package wal
 //@   ensures[C05.classify-empty] w.closed == 0 && min > max ==> result == nil && g_commits == old(g_commits)
 //@   ensures[C05.classify-outside] w.closed == 0 && min <= max && (max < uint64(g_obs_first) || min > uint64(g_obs_last)) ==> result == nil && g_commits == old(g_commits)
 //@   ensures[C05.classify-middle] w.closed == 0 && min <= max && !(max < uint64(g_obs_first) || min > uint64(g_obs_last)) && min > uint64(g_obs_first) && max < uint64(g_obs_last) ==> result != nil && g_commits == old(g_commits)
+
+//@ -- every value published in WAL.s must be usable by a reader that loaded it
+//@ -- after passing the closed check (all readers dereference segments and tail)
+//@ func (*WAL).Close
+//@   props C14
+//@   requires w.metaDB != nil && av(w.s) != nil && av(w.s).segments != nil
+//@   requires w.closed == 0 ==> (w.triggerRotate != nil && !closed(w.triggerRotate))
+//@   assigns *
+//@   site atomic-store(s) requires[C14.published-wf] stored.segments != nil && stored.tail != nil
+//@   ensures[C14.close-idempotent] old(w.closed) != 0 ==> result == nil && nevent("call:types.MetaStore.Close") == 0
+//@   ensures[C14.close-sets-flag] w.closed != 0
+//@   ensures[C14.meta-closed-once] old(w.closed) == 0 ==> nevent("call:types.MetaStore.Close") == 1 && closed(w.triggerRotate)
+
+//@ func (*WAL).FirstIndex
+//@   props C14
+//@   requires av(w.s) != nil
+//@   assigns av(w.s).refCount, av(w.s).finalizer, g_obs_first
+//@   ensures[C14.first-closed] w.closed != 0 ==> result1 == types.ErrClosed
+//@ func (*WAL).LastIndex
+//@   props C14
+//@   requires av(w.s) != nil
+//@   assigns av(w.s).refCount, av(w.s).finalizer, g_obs_last
+//@   ensures[C14.last-closed] w.closed != 0 ==> result1 == types.ErrClosed
